@@ -809,16 +809,20 @@ class CtxAwareTransformer(NodeTransformer):
         self.generic_visit(node)
         return node
 
-    def visit_Try(self, node):
-        """Handle visiting a try statement."""
-        for handler in node.handlers:
-            if handler.name is not None:
-                self.ctxadd(handler.name)
-        self.generic_visit(node)
-        return node
+    def visit_ExceptHandler(self, node):
+        """Handle visiting an ``except E as n:`` / ``except* E as n:`` clause.
 
-    # ``try: ... except* E as n:`` binds n exactly like ``except E as n:``
-    visit_TryStar = visit_Try
+        The name is bound for the handler's body only: Python unbinds it when
+        the handler ends, so a later ``n -x`` line is a command again (unless
+        ``n`` was known before the ``try``)."""
+        name = node.name
+        fresh = name is not None and not any(name in ctx for ctx in self.contexts)
+        if name is not None:
+            self.ctxadd(name)
+        self.generic_visit(node)
+        if fresh:
+            self.contexts[-1].discard(name)
+        return node
 
     def visit_Global(self, node):
         """Handle visiting a global statement."""
